@@ -31,8 +31,14 @@ pub fn assemble_dc_opts(
     extra_imports: &str,
     options: &str,
 ) -> String {
-    let setup_form = g.c.pick(4);
+    let setup_form = g.c.pick(8);
     let setup = match setup_form {
+        // a TS `this` pseudo-parameter is not a parameter: `props` is still the first one
+        4 => format!("function (this: void, props: {enc}{second_param}) {{ return () => null; }}"),
+        5 => format!("function (this: {{ decoyThis: number }}, props: {enc}{second_param}) {{ return () => null; }}"),
+        // redundant parentheses around the setup function
+        6 => format!("((props: {enc}{second_param}) => () => null)"),
+        7 => format!("((function (props: {enc}{second_param}) {{ return () => null; }}))"),
         0 => format!("(props: {enc}{second_param}) => () => null"),
         1 => format!("function (props: {enc}{second_param}) {{ return () => null; }}"),
         2 => format!("({{}}: {enc}{second_param}) => () => null"),
